@@ -118,6 +118,10 @@ BOXES = {
     "degenerate": lambda d: ([1.0] + [-3.0] * (d - 1), [1.0] + [3.0] * (d - 1)),
     "onesided": lambda d: ([0.0] * d, [None] * d),
     "infinite": lambda d: ([-float("inf")] + [-2.0] * (d - 1), [float("inf")] + [2.0] * (d - 1)),
+    # every parameter has ONE infinite side, written as an explicit inf (not None): still bounded on the other side
+    "halfinf": lambda d: ([0.25] * d, [float("inf")] * d),
+    "mixedinf": lambda d: ([(0.25 if k % 2 == 0 else -float("inf")) for k in range(d)],
+                           [(float("inf") if k % 2 == 0 else 0.75) for k in range(d)]),
 }
 
 
